@@ -12,9 +12,15 @@ def digest(obj):
     return hashlib.blake2b(obj.encode("utf8", "surrogatepass"), digest_size=8).hexdigest()
 
 
+class StopWorkload(BaseException):
+    """Raised by the primary recorder once enough unlisted violations are stored: the verdict is decided, the workload stops."""
+
+
 class Rec:
     MAX_UNLISTED = 60
     MAX_KNOWN_PER = 5
+    STOP_AFTER = 600
+    current = None
 
     def __init__(self, prop):
         self.prop = prop
@@ -30,6 +36,9 @@ class Rec:
         self.monitor = Counter()
         self.inconclusive = []
         self._known_entries = findings.load_known(prop)
+        self.primary = Rec.current is None
+        if self.primary:
+            Rec.current = self
 
     def ev(self, n=1):
         self.evaluations += n
@@ -66,6 +75,9 @@ class Rec:
         self.counters["violation:" + kind] += 1
         if len(self.unlisted) < self.MAX_UNLISTED:
             self.unlisted.append(v)
+        if self.primary and self.unlisted_n >= self.STOP_AFTER:
+            self.counters["stopped_early_after_violations"] = 1
+            raise StopWorkload()
         return True
 
     def result(self):
